@@ -9,6 +9,7 @@ import (
 	"encoding/json"
 	"fmt"
 	"net/http"
+	"net/url"
 	"strings"
 	"time"
 
@@ -22,7 +23,7 @@ func init() {
 type c11Case struct {
 	Window int    `json:"window"`
 	Type   string `json:"type"`            // "" EVENT VOD
-	Style  string `json:"style"`           // rel abs query range range0
+	Style  string `json:"style"`           // rel abs query range range0 rangemix refs dirs
 	Start  int    `json:"start"`           // media sequence number of the first playlist
 	Events []int  `json:"events"`          // between polls: advance by k (0,1,2,3,6) or -1 = append ENDLIST
 	Audio  []int  `json:"audio,omitempty"` // a second, independently evolving rendition (multivariant entry point)
@@ -100,6 +101,20 @@ func c11SegURI(style string, msn int, audio bool) (uri string, byteRange string)
 		return "http://cdn.example/media/" + name, ""
 	case "query":
 		return name + "?token=abc&n=" + fmt.Sprint(msn), ""
+	case "refs":
+		// every form of relative reference of RFC 3986 5.2, by turns
+		switch msn % 5 {
+		case 0:
+			return fmt.Sprintf("?seg=%d", msn), "" // query only: the playlist's own path
+		case 1:
+			return "/media/" + name, "" // absolute path
+		case 2:
+			return "../live/./" + name, "" // dot segments
+		case 3:
+			return "./" + name, ""
+		default:
+			return "//cdn.example/media/" + name, "" // network-path reference
+		}
 	case "range":
 		f := "all.ts"
 		if audio {
@@ -159,6 +174,11 @@ func c11Expect(cs c11Case, states []c11State, audio bool, base string) (reqs []s
 		uri, _ := c11SegURI(cs.Style, msn, audio)
 		if strings.HasPrefix(uri, "http://") {
 			return uri
+		}
+		if cs.Style == "refs" {
+			b, _ := url.Parse(plURL)
+			r, _ := url.Parse(uri)
+			return b.ResolveReference(r).String()
 		}
 		return base + uri
 	}
@@ -255,6 +275,10 @@ func c11RunCase(c *vh.Ctx, cs c11Case) (sig, msg, outcome string) {
 			}
 			return srvResp{Status: 200, Body: []byte("#EXTM3U\n#EXT-X-VERSION:4\n#EXT-X-MEDIA:TYPE=AUDIO,GROUP-ID=\"a\",NAME=\"x\",DEFAULT=YES,AUTOSELECT=YES,URI=\"" + adir + "audio.m3u8\"\n" +
 				"#EXT-X-STREAM-INF:BANDWIDTH=1000,CODECS=\"avc1.42c028,mp4a.40.2\",AUDIO=\"a\"\n" + vdir + "stream.m3u8\n")}
+		case (name == "stream.m3u8" || name == "audio.m3u8") && strings.HasPrefix(rawQuery, "seg="):
+			var msn int
+			fmt.Sscanf(rawQuery, "seg=%d", &msn)
+			return srvResp{Status: 200, Body: c11Segment(msn, name == "audio.m3u8")}
 		case name == "stream.m3u8" || name == "audio.m3u8":
 			audio := name == "audio.m3u8"
 			states := vStates
@@ -419,7 +443,7 @@ func c11Groups(tier string) []c11Group {
 	var out []c11Group
 	for _, w := range []int{1, 2, 3, 4, 6, 10} {
 		for _, typ := range []string{"", "EVENT", "VOD"} {
-			for _, style := range []string{"rel", "abs", "query", "range", "range0", "rangemix"} {
+			for _, style := range []string{"rel", "abs", "query", "range", "range0", "rangemix", "refs"} {
 				if tier != "thorough" && style != "rel" && !(w == 4 || w == 6) {
 					continue
 				}
